@@ -11,6 +11,7 @@ fn dispatch(ctx: &Ctx) {
         "C02" => vcore::c02::run(ctx),
         "C04" => vcore::c04::run(ctx),
         "C05" => vcore::c05::run(ctx),
+        "C07" => vcore::c07::run(ctx),
         "C09" => vcore::c09::run(ctx),
         "C10" => vcore::c10::run(ctx),
         "C11" => vcore::c11::run(ctx),
